@@ -57,7 +57,7 @@ pub fn check(info: &LangInfo, text: &[u8], xt: &XTree, ranges: Option<&[Range]>)
     }
     let mut covered = vec![false; text.len()];
     // bottom-up summaries in one pass (the explicit tree is in pre-order: children have larger indices than their parent)
-    let mut sub_err_of: Vec<bool> = n.iter().map(|x| x.is_error || x.missing).collect();
+    let mut sub_err_of: Vec<bool> = n.iter().map(|x| x.is_error || x.missing || x.hidden_missing > 0).collect();
     let mut size_of: Vec<usize> = vec![1; n.len()];
     for i in (0..n.len()).rev() {
         for &c in &n[i].children { if sub_err_of[c] { sub_err_of[i] = true; } size_of[i] += size_of[c]; }
